@@ -122,7 +122,7 @@ class ValueSpelling(ManifestHarness):
         v0 = sym_name_byte(I, 'v0')
         t.add('v = h').add([v0]).add('\nrule r\n  command = ')
         want = []
-        nparts = 3
+        nparts = self.nparts
         for k in range(nparts):
             kind = I.choose('part%d' % k, 7)
             if kind == 0:      # literal byte (anything but $, newline, NUL, CR); a leading space would be skipped
@@ -214,7 +214,10 @@ def run(ctx, out):
     I = load_interp(ctx)
     rep = Replayer(ctx.tree)
     run_family(ctx, out, I, rep, BuildLine(I, ctx.tree), 'build statement: roles x order x escapes x separator spelling')
-    run_family(ctx, out, I, rep, ValueSpelling(I, ctx.tree), 'value spelling: literals, $v/${v}, escapes, continuations (3 parts)')
+    VS = ValueSpelling(I, ctx.tree)
+    VS.nparts = 3 if ctx.quick() else 4
+    run_family(ctx, out, I, rep, VS, 'value spelling: literals, $v/${v}, escapes, continuations (%d parts)' % VS.nparts,
+               budget=1200 if ctx.quick() else 4 * 3600)
     rep.close()
     cov = out.coverage
     cov.update({
